@@ -1,0 +1,105 @@
+//go:build verif
+
+package harfbuzz
+
+import (
+	"sort"
+
+	"github.com/go-text/typesetting/font"
+	"github.com/go-text/typesetting/font/opentype/tables"
+)
+
+// Hook for the verification harness (property C18, window-local rule engines): the real GPOS
+// mark-to-mark attachment (applyGPOSMarkToMark -> applyGPOSMarks) driven through the real lookup
+// loop on a real Buffer, with synthetic MarkMarkPos subtables that are serialised and read back by
+// the library's own parser (format 1 has the layout of MarkBasePos: Marks = the attaching marks
+// (mark1), Bases = the marks attached to (mark2)).
+// Nothing here changes behaviour; the file is only compiled with -tags verif.
+
+func verifMarkMarkTable(t VerifMarkBase) (tables.MarkMarkPos, error) {
+	marks := append([][4]int(nil), t.Marks...)
+	sort.SliceStable(marks, func(i, j int) bool { return marks[i][0] < marks[j][0] })
+	var mk [][4]int
+	for _, m := range marks {
+		if len(mk) == 0 || mk[len(mk)-1][0] != m[0] {
+			mk = append(mk, m)
+		}
+	}
+	bases := append([]VerifBase(nil), t.Bases...)
+	sort.SliceStable(bases, func(i, j int) bool { return bases[i].Glyph < bases[j].Glyph })
+	var bs []VerifBase
+	for _, x := range bases {
+		if len(bs) == 0 || bs[len(bs)-1].Glyph != x.Glyph {
+			bs = append(bs, x)
+		}
+	}
+	var markG, baseG []int
+	for _, m := range mk {
+		markG = append(markG, m[0])
+	}
+	for _, x := range bs {
+		baseG = append(baseG, x.Glyph)
+	}
+	markCov, baseCov := verifCoverageBytes(markG), verifCoverageBytes(baseG)
+	markArray := verifPut16(nil, len(mk))
+	anchorsAt := 2 + 4*len(mk)
+	for i, m := range mk {
+		markArray = verifPut16(markArray, m[1])
+		markArray = verifPut16(markArray, anchorsAt+6*i)
+	}
+	for _, m := range mk {
+		markArray = verifPut16(markArray, 1)
+		markArray = verifPut16(markArray, m[2])
+		markArray = verifPut16(markArray, m[3])
+	}
+	baseArray := verifPut16(nil, len(bs))
+	var anchors []byte
+	at := 2 + 2*t.Classes*len(bs)
+	for _, x := range bs {
+		for c := 0; c < t.Classes; c++ {
+			if c < len(x.Anchors) && x.Anchors[c][0] != 0 {
+				baseArray = verifPut16(baseArray, at+len(anchors))
+				anchors = verifPut16(anchors, 1)
+				anchors = verifPut16(anchors, x.Anchors[c][1])
+				anchors = verifPut16(anchors, x.Anchors[c][2])
+			} else {
+				baseArray = verifPut16(baseArray, 0)
+			}
+		}
+	}
+	baseArray = append(baseArray, anchors...)
+	head := verifPut16(nil, 1)
+	off := 12
+	head = verifPut16(head, off)
+	off += len(markCov)
+	head = verifPut16(head, off)
+	off += len(baseCov)
+	head = verifPut16(head, t.Classes)
+	head = verifPut16(head, off)
+	off += len(markArray)
+	head = verifPut16(head, off)
+	src := append(append(append(append(head, markCov...), baseCov...), markArray...), baseArray...)
+	out, _, err := tables.ParseMarkMarkPos(src)
+	return out, err
+}
+
+// VerifApplyMarkMark applies the MarkMarkPos lookups, in order, through otMap.apply (GPOS proxy, one stage).
+func VerifApplyMarkMark(in VerifEngineBuf, lookups []VerifMarkBase) (out VerifEngineBuf, panicMsg string) {
+	defer verifRecover(&panicMsg)
+	fnt := verifEngineFont(nil)
+	var m otMap
+	accels := make([]otLayoutLookupAccelerator, len(lookups))
+	for i, l := range lookups {
+		sub, err := verifMarkMarkTable(l)
+		if err != nil {
+			return out, "table: " + err.Error()
+		}
+		accels[i].init(lookupGPOS(font.GPOSLookup{LookupOptions: font.LookupOptions{Flag: l.Flag},
+			Subtables: []tables.GPOSLookup{sub}}))
+		m.lookups[1] = append(m.lookups[1], lookupMap{index: uint16(i), autoZWNJ: true, autoZWJ: true, mask: l.Mask})
+	}
+	m.stages[1] = []stageMap{{lastLookup: len(lookups)}}
+	b := verifEngineBuffer(in)
+	m.apply(otProxy{otProxyMeta: proxyGPOS, accels: accels}, nil, fnt, b)
+	return verifEngineState(b, in), ""
+}
